@@ -10,6 +10,22 @@ CHECKS = {
         text="Bounded symbolic verification: all 18 backend functions (Numba py_func, NumPy fallbacks, CUDA host wrapper + kernel through a one-thread-per-index launcher) are executed on symbolic records, windows and analysis angle and the solver shows each of the five statistics equal to the directly evaluated windowed DFT for every input within the stated shapes (quick: L<=4, K<=2; thorough: L<=8, K<=3). Unit tests compare |X|^2 on one record and never run the CUDA code or look at Im{XY}.",
         note="Reals stand for binary64 (rounding budget outside the claim); numba/LLVM/PTX code generation trusted (py_func semantics encoded, counterexamples replayed on the compiled kernels and numba's CUDA simulator); np.linalg.qr replaced by exact Gram-Schmidt; shapes beyond the bounds not covered.",
         ref="DESIGN.md section 4 C01"),
+    "C09": dict(
+        text="Bounded symbolic verification of the coherence/cross-spectrum identities: SpectrumResult.__getattr__ is executed on one generic bin of symbolic statistics (zero channels included) and the solver shows coh in [0,1], |Gxy|^2<=Gxx*Gyy, GyyCx+GyyRx=Gyy, GyySx=Gyy(1-coh) and the definedness of every guarded division; the 18 kernels are executed on symbolic data to show swap symmetry, auto-in-pair equality, coh=1 for K=1 and y=g*x, and Cauchy-Schwarz (K=2 direct, K=3 via the Lagrange identity in the thorough tier). Tests check none of these identities.",
+        note="Reals for binary64; kernel shapes L<=3,K<=2 (quick), L<=4,K<=3 (thorough); result-level obligations assume the Cauchy-Schwarz fact that the kernel-level obligations establish; numba/CUDA code generation trusted.",
+        ref="DESIGN.md section 4 C09"),
+    "C10": dict(
+        text="Symbolic verification of the 13 error attributes: __getattr__ runs on a generic bin (all statistics, fs and the integer n>=1 symbolic, unbounded) and the solver shows each attribute equal to the Bendat-Piersol expression written from the property text, dev=est*err, the 1/sqrt(n) law (n->4n halves), and the three phase-error clauses with arcsin as an uninterpreted function constrained by u<=asin u<=(pi/2)u. Tests only compare three deviations with Monte-Carlo scatter at one configuration.",
+        note="Reals for binary64; arcsin/sqrt by contract; the Monte-Carlo clause is statistical and outside the claim; assumes XX,YY>0 and 0<|XY|^2<=XX*YY (established for kernel outputs by C01/C09).",
+        ref="DESIGN.md section 4 C10"),
+    "C11": dict(
+        text="Symbolic verification: XY_emp_var=M2/n, >=0, XY_emp_dev^2=var, G??_emp_dev=sqrt(M2/n)*2/(fs*S2), None for the other analysis type, on a generic bin (unbounded symbolic values); all 18 backend functions executed on symbolic data show M2 equal to the population variance of the per-segment cross products (0 for one segment, never negative). Tests only check finiteness.",
+        note="Reals for binary64; kernel shapes L<=3,K<=2 here (C01 covers more); navg=K wiring belongs to C05; Gaussian agreement clause is statistical and outside.",
+        ref="DESIGN.md section 4 C11"),
+    "C20": dict(
+        text="Symbolic verification of every derived attribute against the documented function of the base estimates on a generic bin (cross and auto, zero statistics included), None rules and AttributeError for unknown names; get_measurement on 3 bins with symbolic increasing f, symbolic values and symbolic query (grid value, linearity of real/imag parts, clamping, scalar/array shape); to_dataframe's column dict for every pattern of per-bin segment counts incl. all-equal and single-bin results; __getattr__ termination on bare instances for all copy/pickle probe names (finite enumeration on the real code object) and copy/deepcopy/pickle round trips in the replay world.",
+        note="Reals for binary64; np.interp, log10, atan2, unwrap, pandas and pickle by contract; export/protocol clauses are finite enumerations run on the clone, not solver queries (no symbolic input exists there).",
+        ref="DESIGN.md section 4 C20"),
 }
 
 NOT_APPLICABLE = {
